@@ -20,6 +20,7 @@ import hashlib
 import z3
 import numpy as np
 
+from .sym import NumStr
 from .sym import (Sym, is_sym, lift, CTX, sym_div, sym_sqrt, sym_pow, py_int, to_real, And, Or, Not, ite,
                   SymbolicTruthError, _simp, _b)
 from . import npmodel
@@ -139,11 +140,11 @@ class Closure:
 
 
 MATH_MODELS = {}
-TRANSPARENT_NATIVE = set()      # callables that may be called natively even with symbolic args
+TRANSPARENT_NATIVE = {NumStr}   # callables that may be called natively even with symbolic args
 
 
 def anysym(x, _seen=None, _depth=0):
-    if is_sym(x) or isinstance(x, SymArray):
+    if is_sym(x) or isinstance(x, (SymArray, NumStr)):
         return True
     if x is None or isinstance(x, (int, float, str, bool, bytes, types.ModuleType, types.FunctionType, type)):
         return False
@@ -905,6 +906,15 @@ class Interp:
                 return None
             return self.call(f, args, kw)
         if isinstance(e, ast.JoinedStr):
+            if len(e.values) == 1 and isinstance(e.values[0], ast.FormattedValue) and e.values[0].conversion == -1:
+                v0 = e.values[0]
+                val = self.ev(v0.value, env)
+                spec = self.ev(v0.format_spec, env) if v0.format_spec else ''
+                if (is_sym(val) or isinstance(val, NumStr)) and isinstance(spec, str):
+                    import re as _re
+                    m_ = _re.fullmatch(r'\.(\d+)[eE]', spec)
+                    if m_ and int(m_.group(1)) >= 14:
+                        return NumStr(to_real(val))
             parts = []
             for v in e.values:
                 if isinstance(v, ast.Constant):
@@ -928,7 +938,8 @@ class Interp:
                 if anysym(out):
                     return SymSet(out)
                 return set(out)
-            return out if isinstance(e, ast.ListComp) else iter(out)
+            # a generator with symbolic items is handed over as a list so that the models of sum / fsum / max see it
+            return out if isinstance(e, ast.ListComp) or anysym(out) else iter(out)
         if isinstance(e, ast.DictComp):
             out = {}
 
